@@ -12,3 +12,24 @@ func (e *SM2ScalarElement) VerifSetRaw(raw [4]uint64) *SM2ScalarElement {
 	copy(e.x[:], raw[:])
 	return e
 }
+
+// VerifDivstepPrecomp returns the precomputed constant of the divstep inversion.
+func VerifDivstepPrecomp() [4]uint64 {
+	var out [4]uint64
+	sm2DivstepPrecomp(&out)
+	return out
+}
+
+// VerifDivstepInvert sets e = 1/x with the (otherwise unused) Bernstein-Yang divstep inversion sm2Inv.
+func (e *SM2Element) VerifDivstepInvert(x *SM2Element) *SM2Element {
+	var plain sm2NonMontgomeryDomainFieldElement
+	sm2FromMontgomery(&plain, &x.x)
+	var g [SAT_LIMBS]uint64
+	for j := 0; j < LIMBS; j++ {
+		g[j] = plain[j]
+	}
+	var out [LIMBS]uint64
+	sm2Inv(&out, &g)
+	copy(e.x[:], out[:])
+	return e
+}
